@@ -214,7 +214,7 @@ int main(int argc, char *argv[])
    * the user know there was a problem, so we flush the data
    * ourselves.
    */
-  if (0 != fflush(stdout))
+  if (0 != fflush(stdout) || ferror(stdout))
     {
       perror("stdout");
       exitval = 1;
